@@ -512,7 +512,7 @@ func main() {
 		"each tree evaluated (1) by gomacro with OptKeepUntyped, (2) by the exact math/big reference evaluator, (3) by go/types types.Eval; every accepted value is then used in typed contexts "+
 		"`var x T = e` and `T(e)` for T over the 17 basic kinds (3 targets per value, biased to the value's neighbourhood) judged by go/types (accept/reject) and one batched compiled-Go program (values, float bit patterns), "+
 		"and in `var b *big.Int|*big.Rat|*big.Float = e` judged against math/big built from the exact value; corpus/C04/*.json replayed first. "+
-		"Shift counts up to 1100 (bound 1074 as go/types); the model comparison skips values outside go/constant's exact big.Rat range for the model comparison. "+
+		"Shift counts up to 1100 (bound 1074 as go/types); a tree with an intermediate value of >= 4000 bits is judged by go/types instead of exact arithmetic (go/constant rounds to 512 bits there, as the spec allows); the model comparison skips values outside go/constant's exact big.Rat range for the model comparison. "+
 		"A case is non-trivial when it contains >=1 operator and is accepted; distinct by SHA-256 of the source text")
 	newInterp()
 	wd := vh.NewWatchdog(rep, 60*time.Second)
@@ -588,8 +588,20 @@ func main() {
 		n := genAny(rng, 1+rng.Intn(depth))
 		src := n.String()
 		wd.Beat(src)
+		refBeyond = false
 		want, werr := evalRef(n)
 		got, lit, ok, msg := evalUntyped(src)
+		if refBeyond {
+			// beyond go/constant's exact range: gomacro must agree with go/types (value, kind, accept/reject)
+			rep.Dist("result:beyond_exact_range")
+			if v := checkUntypedSrc(rep, src, "beyond"); v != nil {
+				rep.Count(src, true)
+			} else {
+				rep.Count(src, false)
+			}
+			idx++
+			continue
+		}
 		opsUsed := map[string]bool{}
 		n.ops(opsUsed)
 		for o := range opsUsed {
